@@ -25,7 +25,14 @@ def check_C28(ctx):
     r0 = ctx.tlc(FILES, "MC_HostFaults", "MC_HostFaults.cfg")
     tr = os.path.join(ctx.work, "trace.ndjson")
     ix = os.path.join(ctx.work, "index.ndjson")
-    ctx.run([binary, tr, ix], timeout=3000)
+    # model-generated programs: transactions of Storage.tla simulations join the hand-written corpus
+    from checks.system_storage import FILES as STORAGE_FILES, dedupe_sim
+    from vlib.core import write_ndjson
+    rs = ctx.tlc(STORAGE_FILES, "Sim_Storage", "MC_Storage_sim.cfg", simulate=40 if ctx.quick else 400, depth=61, tag="sim", count=False)
+    behs = [{"id": i, "steps": h} for i, h in enumerate(dedupe_sim(rs.json_lines(), 60))]
+    bf = os.path.join(ctx.work, "behaviours.ndjson")
+    write_ndjson(bf, behs)
+    ctx.run([binary, tr, ix, bf], timeout=3000)
     index = read_ndjson(ix)
     events = read_ndjson(tr)
     summ = [r for r in index if r.get("summary")][0]
@@ -59,7 +66,7 @@ def check_C28(ctx):
         "states": r0.distinct, "transitions": r0.generated,
         "traces_validated_against_impl": summ["executions"] - nrej,
         "programs": summ["programs"], "callback_kinds": len(kinds), "events_judged_by_tlc": summ["events"],
-    }, assumptions=["corpus of %d hand-written programs covering storage, events, uuid, randomness, block info, hashing, keys, contracts (add/update/tryUpdate/remove/import), capabilities, inbox, account creation" % summ["programs"],
+    }, assumptions=["corpus of %d programs (23 hand-written + transactions of Storage.tla simulations with their history as setup) covering storage, events, uuid, randomness, block info, hashing, keys, contracts (add/update/tryUpdate/remove/import), capabilities, inbox, account creation" % summ["programs"],
                     "tryUpdate window delimited by log markers in the corpus program"])
 
 
